@@ -142,7 +142,7 @@ pub fn plant_fault(rng: &mut Rng, root: &Obj, kind: usize) -> Option<(Obj, Fault
         0 => ("unknown-property", "noSuchProperty".into(), "1".into(), LeafSpec { enters: false, ..base }, "unknown property of class", all, (false, false, false, false), Box::new(|t| !is_sep(t.o) || true)),
         1 => ("ill-typed-constant", "enabled".into(), "\"yes\"".into(), LeafSpec { konst: Konst::Fail, ret_ok: false, ..base }, "expression type mismatch", all, (false, false, false, false), Box::new(|t| widgetish(t.o) && !has(t.o, "enabled"))),
         2 => ("ill-typed-expression", "toolTip".into(), "srcSpin.value + \"a\"".into(), LeafSpec { enters: false, ..base }, "incompatible types", all, (false, false, false, false), Box::new(|t| widgetish(t.o) && !has(t.o, "toolTip"))),
-        3 => ("dynamic-type-mismatch", "toolTip".into(), "srcSpin.value".into(), LeafSpec { konst: Konst::Dyn, ret_ok: false, ..base }, "expression type mismatch", (true, true, false), (false, false, false, false), Box::new(|t| widgetish(t.o) && !has(t.o, "toolTip"))),
+        3 => ("dynamic-type-mismatch", "toolTip".into(), "srcSpin.value".into(), LeafSpec { konst: Konst::Dyn, ret_ok: false, ..base }, "expression type mismatch", all, (false, false, false, false), Box::new(|t| widgetish(t.o) && !has(t.o, "toolTip"))),
         4 => ("unknown-signal", "onNoSuchSignal".into(), "srcEdit.clear()".into(), LeafSpec { enters: false, konst: Konst::Dyn, ..base }, "unknown signal of class", all, (false, false, false, false), Box::new(|_| true)),
         5 => ("too-many-parameters", "onClicked".into(), "function(a: bool, b: int) {}".into(), LeafSpec { enters: false, konst: Konst::Dyn, ..base }, "too many callback arguments", all, (false, false, false, false), Box::new(|t| matches!(t.o.class.as_str(), "QPushButton" | "QToolButton" | "QCheckBox" | "QRadioButton") && !has(t.o, "onClicked"))),
         6 => ("read-only-property", "fullScreen".into(), "true".into(), LeafSpec { writable: false, ..base }, "not a writable property", all, (false, false, false, false), Box::new(|t| widgetish(t.o))),
@@ -152,10 +152,10 @@ pub fn plant_fault(rng: &mut Rng, root: &Obj, kind: usize) -> Option<(Obj, Fault
         10 => ("attached-on-non-layout-parent", "QLayout.row".into(), "1".into(), LeafSpec { readable: false, writable: false, ..base }, "unused or unsupported dynamic binding to attached property", all, (false, false, false, false), Box::new(|t| t.parent.map(|p| widgetish(p) && p.class != "QTabWidget").unwrap_or(false) && !has(t.o, "QLayout"))),
         11 => ("unknown-attached-type", "NoSuchType.foo".into(), "1".into(), base.clone(), "unknown attaching type", all, (false, false, true, false), Box::new(|_| true)),
         12 => ("dynamic-attached", "QLayout.alignment".into(), "srcCheck.checked ? Qt.AlignLeft : Qt.AlignRight".into(), LeafSpec { konst: Konst::Dyn, readable: false, writable: false, ..base }, "unused or unsupported dynamic binding to attached property", all, (false, false, false, false), Box::new(|t| t.parent.map(|p| family_of(&p.class) == Family::Layout).unwrap_or(false) && !has(t.o, "QLayout.alignment"))),
-        13 => ("dynamic-on-spacer", "orientation".into(), "srcCheck.checked ? Qt.Horizontal : Qt.Vertical".into(), LeafSpec { konst: Konst::Dyn, readable: false, writable: false, ..base }, "not a readable property", (true, true, false), (false, false, false, false), Box::new(|t| t.o.class == "QSpacerItem" && !has(t.o, "orientation"))),
+        13 => ("dynamic-on-spacer", "orientation".into(), "srcCheck.checked ? Qt.Horizontal : Qt.Vertical".into(), LeafSpec { konst: Konst::Dyn, readable: false, writable: false, ..base }, "not a readable property", all, (false, false, false, false), Box::new(|t| t.o.class == "QSpacerItem" && !has(t.o, "orientation"))),
         14 => ("duplicated-binding", String::new(), String::new(), base.clone(), "duplicated binding", all, (true, false, false, false), Box::new(|t| !is_sep(t.o) && t.o.bindings.iter().any(|(l, _)| !l.contains('.') && !l.starts_with("on")))),
         15 => ("unknown-object-type", String::new(), String::new(), base.clone(), "unknown object type", all, (false, false, false, true), Box::new(|t| t.parent.is_some() && family_of(&t.o.class) != Family::Action && !t.o.pre_order().iter().any(|x| x.id.as_deref().map(|i| i.starts_with("src")).unwrap_or(false)))),
-        16 => ("dynamic-rect-member", "geometry.x".into(), "srcSpin.value".into(), LeafSpec { konst: Konst::Dyn, readable: false, writable: false, ..base }, "not a readable property", (true, true, false), (false, false, false, false), Box::new(|t| widgetish(t.o) && !has(t.o, "geometry"))),
+        16 => ("dynamic-rect-member", "geometry.x".into(), "srcSpin.value".into(), LeafSpec { konst: Konst::Dyn, readable: false, writable: false, ..base }, "not a readable property", all, (false, false, false, false), Box::new(|t| widgetish(t.o) && !has(t.o, "geometry"))),
         17 => ("stretch-without-policy", "sizePolicy.horizontalStretch".into(), "1".into(), base.clone(), "cannot specify stretch", all, (false, false, false, false), Box::new(|t| widgetish(t.o) && !has(t.o, "sizePolicy"))),
         18 => ("negative-layout-index", "QLayout.row".into(), "-1".into(), LeafSpec { range_ok: false, readable: false, writable: false, ..base }, "negative row is not allowed", all, (false, false, false, false), Box::new(|t| t.parent.map(|p| p.class == "QGridLayout").unwrap_or(false) && !has(t.o, "QLayout.row"))),
         19 => ("duplicated-attached-binding", String::new(), String::new(), base.clone(), "duplicated binding", all, (false, true, false, false), Box::new(|t| t.parent.map(|p| family_of(&p.class) == Family::Layout).unwrap_or(false) && t.o.bindings.iter().any(|(l, _)| l.starts_with("QLayout.")))),
